@@ -312,6 +312,7 @@ package frame
 //@   ensures  wf(g) && distinctCols(g) && g.off == 0 && g.len == len && g.cap == cap
 //@   ensures  typed: len(g.data) == typeNumOut(types) && g.prefix == typePrefix(types) - 1 && forall(k, 0, len(g.data), g.data[k].typ.Type == typeOut(types, k))
 //@   ensures  frame-typed: implies(hastype(types, Frame), len(g.data) == len(unbox(types, Frame).data) && g.prefix == unbox(types, Frame).prefix && forall(k, 0, len(g.data), g.data[k].typ.Type == unbox(types, Frame).data[k].typ.Type))
+//@   ensures  full-length: forall(k, 0, len(g.data), rvLen(g.data[k].val) == cap)
 //@   ensures  fresh-columns: colClock == old(colClock) + 1 && forall(k, 0, len(g.data), colStamp(g.data[k].ptr) == colClock)
 //@   ensures  zero-filled: forall(k, 0, len(g.data), forall(r, 0, cap, ColMem[g.data[k].ptr][r] == zeroElem(g.data[k].ptr)))
 //@   ensures  nothing-else-touched: forall(c, implies(colStamp(Ref(c)) <= old(colClock), ColMem[Ref(c)] == old(ColMem[Ref(c)])))
